@@ -1,0 +1,26 @@
+//go:build verif
+
+// Verification hooks (read-only): compiled only with -tags verif.
+
+package ntor
+
+import "fmt"
+
+// VerifConstants returns the package constants as the compiler evaluated them.
+func VerifConstants() map[string]string {
+	m := map[string]string{}
+	put := func(k string, v interface{}) { m[k] = fmt.Sprint(v) }
+	put("PublicKeyLength", PublicKeyLength)
+	put("RepresentativeLength", RepresentativeLength)
+	put("PrivateKeyLength", PrivateKeyLength)
+	put("SharedSecretLength", SharedSecretLength)
+	put("NodeIDLength", NodeIDLength)
+	put("KeySeedLength", KeySeedLength)
+	put("AuthLength", AuthLength)
+	put("protoID", string(protoID))
+	put("tMac", string(tMac))
+	put("tKey", string(tKey))
+	put("tVerify", string(tVerify))
+	put("mExpand", string(mExpand))
+	return m
+}
